@@ -1,6 +1,10 @@
 package props
 
 import (
+	"strings"
+
+	"github.com/wkhere/bcl"
+
 	"verifharness/refbcl"
 	"verifharness/verif"
 )
@@ -34,4 +38,17 @@ func Dbg_Bytes8() {
 	src := []byte("print 1e9")
 	src = append(src, payload...)
 	c06Run(src, false)
+}
+
+func Dbg_C19() {
+	src := c19Programs[1]
+	k, k2 := verif.Int("k"), verif.Int("k2")
+	values := map[string]any{"1001": k, "1002": k2}
+	base := c19Do(src, values)
+	with := c19Do(src, values, bcl.OptTrace(true))
+	bp, _, _ := c19Split(base.ExecOut)
+	wp, _, _ := c19Split(with.ExecOut)
+	verif.Observe("base", strings.Join(bp, "|"))
+	verif.Observe("with", strings.Join(wp, "|"))
+	verif.Observe("raw", with.ExecOut)
 }
